@@ -249,16 +249,20 @@ func (c *connectClient) NewConn(
 	// The header map may be the caller's (a Request that is being re-sent): what
 	// an earlier call announced doesn't apply to this one.
 	delete(header, connectHeaderTimeout)
-	if deadline, ok := ctx.Deadline(); ok {
-		millis := int64(time.Until(deadline) / time.Millisecond)
-		if millis >= 0 {
-			encoded := strconv.FormatInt(millis, 10 /* base */)
-			if len(encoded) <= 10 {
-				header[connectHeaderTimeout] = []string{encoded}
-			} // else effectively unbounded
+	duplexCall := newDuplexHTTPCall(ctx, c.HTTPClient, c.URL, spec, header)
+	// A stream may be created well before its request is sent (on the first
+	// Send): announce the time that remains then.
+	duplexCall.onRequestSend = func(request *http.Request) {
+		if deadline, ok := ctx.Deadline(); ok {
+			millis := int64(time.Until(deadline) / time.Millisecond)
+			if millis >= 0 {
+				encoded := strconv.FormatInt(millis, 10 /* base */)
+				if len(encoded) <= 10 {
+					request.Header[connectHeaderTimeout] = []string{encoded}
+				} // else effectively unbounded
+			}
 		}
 	}
-	duplexCall := newDuplexHTTPCall(ctx, c.HTTPClient, c.URL, spec, header)
 	var conn StreamingClientConn
 	if spec.StreamType == StreamTypeUnary {
 		// The marshaler names the request's encoding once it knows whether this
